@@ -168,3 +168,32 @@ def reaching_defs(cfg: CFG, var: str) -> dict[int, frozenset[int]]:
                 if s not in work:
                     work.append(s)
     return {k: frozenset(v) for k, v in IN.items()}
+
+
+def canon(f: FuncInfo, e: ast.AST, _depth: int = 0) -> str:
+    """Canonical text of an expression with local aliases resolved: a local whose every definition in the function is the same
+    attribute chain on `self` (or a parameter, or a call of one named function) is replaced by that definition.  Rules compare
+    canonical texts, so `container = self.container; container.save(…)` and `self.container.save(…)` read alike whatever the local
+    is called."""
+    if _depth > 4:
+        return ast.unparse(e)
+    if isinstance(e, ast.Name):
+        params = {a.arg for a in f.all_params()}
+        if e.id in params or e.id == "self":
+            return e.id
+        defs = [a.value for a in walk_no_nested(f.node) if isinstance(a, ast.Assign) and any(isinstance(t, ast.Name) and t.id == e.id for t in a.targets)]
+        defs += [a.value for a in walk_no_nested(f.node) if isinstance(a, ast.AnnAssign) and a.value is not None and isinstance(a.target, ast.Name) and a.target.id == e.id]
+        if any(any(isinstance(x, ast.Name) and x.id == e.id for x in ast.walk(d)) for d in defs):
+            return e.id  # defined in terms of itself (x = x.clone): no canonical form
+        texts = {canon(f, d, _depth + 1) for d in defs if isinstance(d, (ast.Attribute, ast.Call, ast.Subscript, ast.Name))}
+        if len(texts) == 1 and len(defs) == len([d for d in defs if isinstance(d, (ast.Attribute, ast.Call, ast.Subscript, ast.Name))]):
+            return next(iter(texts))
+        return e.id
+    if isinstance(e, ast.Attribute):
+        return f"{canon(f, e.value, _depth + 1)}.{e.attr}"
+    if isinstance(e, ast.Call):
+        fn = canon(f, e.func, _depth + 1)
+        return f"{fn}({', '.join(canon(f, a, _depth + 1) for a in e.args)})"
+    if isinstance(e, ast.Subscript):
+        return f"{canon(f, e.value, _depth + 1)}[{canon(f, e.slice, _depth + 1)}]"
+    return ast.unparse(e)
